@@ -48,12 +48,16 @@ impl<'a> ParserBuilder<'a> {
         let psess = self.psess.ok_or(ParserError::NoParseSess)?;
         let input = self.input.ok_or(ParserError::NoInput)?;
 
-        let parser = match Self::parser(psess.inner(), input) {
-            Ok(p) => p,
-            Err(diagnostics) => {
+        // Creating the parser reads and lexes the input, which can raise a fatal error
+        // (e.g. a file that is not valid UTF-8 or an unterminated block comment).
+        let parser = match catch_unwind(AssertUnwindSafe(|| Self::parser(psess.inner(), input))) {
+            Ok(Ok(p)) => p,
+            Ok(Err(diagnostics)) => {
                 psess.emit_diagnostics(diagnostics);
                 return Err(ParserError::ParserCreationError);
             }
+            // The fatal error has already been reported through the parse session.
+            Err(..) => return Err(ParserError::ParserCreationError),
         };
 
         Ok(Parser { parser })
